@@ -86,6 +86,15 @@ def fill_model(e, shape, concrete=None):
     return ms
 
 
+def wsconst_filter(e, prog, letter):
+    """KyteaWsConstFilter::new(char type) — through the public constructor, so that the harnesses do not depend on the struct layout"""
+    return e.run(hlib.fn(prog, 'KyteaWsConstFilter', 'new'), [Int(TYPE_CODE[letter], 8)])
+
+
+def pattern_tagger(e, prog, rules_map):
+    return e.run(hlib.fn(prog, 'PatternMatchTagger', 'new'), [rules_map])
+
+
 def random_shape(rnd, tags=True, max_w=3):
     """a structurally valid random model shape (unique n-grams of length <= 2*window, tag n-gram positions within the window)"""
     cw = rnd.randint(1, max_w); tw = rnd.randint(1, min(max_w, 2))
